@@ -28,7 +28,7 @@ const (
 	RTPath     = ModPath + "/verifrt"
 	genFile    = "zz_verifrt_globals.go"
 	rtName     = "verifrt"
-	instrMajor = "instr-v4"
+	instrMajor = "instr-v5"
 )
 
 // DefaultRoots are the package trees (relative to the naga root) that get instrumented.
@@ -43,7 +43,8 @@ type Config struct {
 }
 
 type RangeSite struct {
-	ID      string `json:"id"` // relpath/file.go:line[:col]
+	ID      string `json:"id"`  // stable across unrelated edits: pkg.Func[#k] (k-th map range of the function, when it has several)
+	Pos     string `json:"pos"` // relpath/file.go:line
 	Func    string `json:"func"`
 	KeyType string `json:"key_type"`
 }
@@ -444,7 +445,7 @@ func (l *loader) rewritePackage(src *pkgSrc, c *checked, st *Stats, ov *overlayJ
 		off := func(p token.Pos) int { return tf.Offset(p) }
 		var edits []edit
 		relFile := filepath.ToSlash(filepath.Join(src.rel, filepath.Base(orig)))
-		seenLine := map[int]int{}
+		perFunc := map[string]int{}
 		for _, imp := range af.Imports {
 			if imp.Name != nil && imp.Name.Name == rtName {
 				return fmt.Errorf("%s: import named %q", orig, rtName)
@@ -494,14 +495,14 @@ func (l *loader) rewritePackage(src *pkgSrc, c *checked, st *Stats, ov *overlayJ
 						return true
 					}
 					pos := l.fset.Position(rs.For)
-					id := fmt.Sprintf("%s:%d", relFile, pos.Line)
-					seenLine[pos.Line]++
-					if seenLine[pos.Line] > 1 {
-						id = fmt.Sprintf("%s:%d:%d", relFile, pos.Line, pos.Column)
+					perFunc[fname]++
+					id := fname
+					if perFunc[fname] > 1 {
+						id = fmt.Sprintf("%s#%d", fname, perFunc[fname])
 					}
 					edits = append(edits, edit{off(rs.X.Pos()), rtName + ".MapSeq2("})
 					edits = append(edits, edit{off(rs.X.End()), ", " + strconv.Quote(id) + ")"})
-					st.RangeSites = append(st.RangeSites, RangeSite{ID: id, Func: fname, KeyType: types.TypeString(key, func(p *types.Package) string { return p.Name() })})
+					st.RangeSites = append(st.RangeSites, RangeSite{ID: id, Pos: fmt.Sprintf("%s:%d", relFile, pos.Line), Func: fname, KeyType: types.TypeString(key, func(p *types.Package) string { return p.Name() })})
 					return true
 				})
 			}
